@@ -372,7 +372,7 @@ func checkC10(r *Report) {
 	e := runEffect(p)
 	effectTrusted(r)
 	const pkg = modPrefix + "semver"
-	r.Explain = "Only structural necessary conditions of 'the canonical string denotes the same version' are decided; equality of Parse(Canon(v)) and v over all strings is not. C10.a CANON-COVER: for the generic version and for each extension (Maven, PEP 440, RubyGems) every field the comparator reads is read by the canonical printer, except fields re-checked as derived from a printed field; otherwise two versions that compare unequal share a canonical string. C10.b FOLD-AGREE: a field the printer case-folds is also case-folded by the comparator (or by a named hand-written folding comparator), and the printer does not re-read a compared field as a number with strconv unless the comparator does the same (both are to use the package's own classifier); otherwise versions that differ in case share a canonical string but compare unequal. C10.c CANON-PURE: Canon, the extensions' canon methods and pypi.CanonVersion write nothing reachable from their operands, so canonicalising twice gives the same string and does not disturb later comparisons."
+	r.Explain = "Only structural necessary conditions of 'the canonical string denotes the same version' are decided; equality of Parse(Canon(v)) and v over all strings is not. C10.a CANON-COVER: for the generic version and for each extension (Maven, PEP 440, RubyGems) every field the comparator reads is read by the canonical printer, except fields re-checked as derived from a printed field; otherwise two versions that compare unequal share a canonical string. C10.b FOLD-AGREE: a field the printer case-folds is also case-folded by the comparator (or by a named hand-written folding comparator), and the printer does not re-read a compared field as a number with strconv unless the comparator does the same (both are to use the package's own classifier); otherwise versions that differ in case share a canonical string but compare unequal. C10.d PARSED-NUMBER-FITS: a number the version parsers read with strconv.ParseUint/ParseInt at bit size B is converted only to integer types that hold every value of that size (otherwise a component near the top of the range wraps, is printed wrapped, and the canonical string denotes another version). C10.c CANON-PURE: Canon, the extensions' canon methods and pypi.CanonVersion write nothing reachable from their operands, so canonicalising twice gives the same string and does not disturb later comparisons."
 	r.Assume = []string{"a field counts as read by a function if the function or a same-package function it calls statically loads it on some path; path conditions are not compared"}
 	own := fieldOwnerIndex(p.Pkgs[pkg].Types)
 	pairs := []struct{ cmp, canon string }{
@@ -461,6 +461,7 @@ func checkC10(r *Report) {
 	} else {
 		r.bad("C10.c/CANON-PURE", "pypi.CanonVersion", "", "function not found: anchor lost")
 	}
+	parsedNumberFitsRule(r, p, "C10.d/PARSED-NUMBER-FITS", "semver")
 	// positive control for FOLD-AGREE: the NuGet fold in Canon must be seen
 	if f := p.lookupFn("(*semver.Version).Canon"); f != nil {
 		r.floor("C10.b/FOLD-AGREE", "fields case-folded by (*Version).Canon", len(foldedFields(p, f, pkg)), 1)
@@ -1071,4 +1072,154 @@ func noWideSubtractRule(r *Report, p *Prog, rule string, fns []*ssa.Function) in
 		}
 	}
 	return n
+}
+
+func debugNarrow(p *Prog) {
+	sz := func(b *types.Basic) (int, bool) {
+		switch b.Kind() {
+		case types.Int8:
+			return 8, true
+		case types.Uint8:
+			return 8, false
+		case types.Int16:
+			return 16, true
+		case types.Uint16:
+			return 16, false
+		case types.Int32:
+			return 32, true
+		case types.Uint32:
+			return 32, false
+		case types.Int64, types.Int:
+			return 64, true
+		case types.Uint64, types.Uint, types.Uintptr:
+			return 64, false
+		}
+		return 0, false
+	}
+	for _, f := range p.Funcs {
+		if !p.inScope(f) || f.Blocks == nil {
+			continue
+		}
+		for _, b := range f.Blocks {
+			for _, in := range b.Instrs {
+				c, ok := in.(*ssa.Convert)
+				if !ok {
+					continue
+				}
+				sb, ok1 := c.X.Type().Underlying().(*types.Basic)
+				db, ok2 := c.Type().Underlying().(*types.Basic)
+				if !ok1 || !ok2 {
+					continue
+				}
+				ss, ssig := sz(sb)
+				ds, dsig := sz(db)
+				if ss == 0 || ds == 0 {
+					continue
+				}
+				if _, isConst := c.X.(*ssa.Const); isConst {
+					continue
+				}
+				lossy := ds < ss || (ds == ss && ssig != dsig) || (ds > ss && ssig && !dsig)
+				if lossy {
+					fmt.Printf("%s\t%s\t%s <- %s (%s)\n", p.pos(c.Pos()), fnKey(f), c.Type(), c.X.Type(), c.X)
+				}
+			}
+		}
+	}
+}
+
+// parsedNumberFitsRule (C10.d): a number the version parsers read with
+// strconv.ParseUint/ParseInt at bit size B is only converted to integer types
+// that can hold every value of that size. Otherwise a numeric component near
+// the top of the range wraps (typically to a negative number), the canonical
+// printer prints the wrapped value, and the canonical string is a different
+// version from the one that was parsed.
+func parsedNumberFitsRule(r *Report, p *Prog, rule string, pkgs ...string) {
+	sizes := types.SizesFor("gc", "amd64")
+	if archOverride != "" {
+		if s := types.SizesFor("gc", archOverride); s != nil {
+			sizes = s
+		}
+	}
+	intBits := int(sizes.Sizeof(types.Typ[types.Int])) * 8
+	n := 0
+	for _, f := range p.Funcs {
+		if f.Pkg == nil || f.Blocks == nil {
+			continue
+		}
+		in := false
+		for _, pk := range pkgs {
+			if f.Pkg.Pkg.Path() == modPrefix+pk {
+				in = true
+			}
+		}
+		if !in {
+			continue
+		}
+		perFn := 0
+		for _, b := range f.Blocks {
+			for _, ins := range b.Instrs {
+				call, ok := ins.(*ssa.Call)
+				if !ok {
+					continue
+				}
+				name := staticCalleeName(call)
+				if name != "strconv.ParseUint" && name != "strconv.ParseInt" {
+					continue
+				}
+				n++
+				perFn++
+				key := fmt.Sprintf("%s: %s #%d", fnKey(f), name, perFn)
+				bc, ok := call.Call.Args[2].(*ssa.Const)
+				if !ok || bc.Value == nil {
+					r.bad(rule, key, p.pos(call.Pos()), "the bit size is not a constant: cannot decide which values the result can take")
+					continue
+				}
+				bits := int(bc.Int64())
+				if bits == 0 {
+					bits = intBits
+				}
+				var bad []string
+				if refs := call.Referrers(); refs != nil {
+					for _, rf := range *refs {
+						ex, ok := rf.(*ssa.Extract)
+						if !ok || ex.Index != 0 || ex.Referrers() == nil {
+							continue
+						}
+						for _, u := range *ex.Referrers() {
+							cv, ok := u.(*ssa.Convert)
+							if !ok {
+								continue
+							}
+							tb, ok := cv.Type().Underlying().(*types.Basic)
+							if !ok || tb.Info()&types.IsInteger == 0 {
+								continue
+							}
+							tbits := int(sizes.Sizeof(tb)) * 8
+							signed := tb.Info()&types.IsUnsigned == 0
+							fits := false
+							if name == "strconv.ParseUint" {
+								if signed {
+									fits = tbits-1 >= bits
+								} else {
+									fits = tbits >= bits
+								}
+							} else {
+								fits = signed && tbits >= bits
+							}
+							if !fits {
+								bad = append(bad, fmt.Sprintf("%s at %s", cv.Type(), p.pos(cv.Pos())))
+							}
+						}
+					}
+				}
+				if len(bad) > 0 {
+					r.bad(rule, key, p.pos(call.Pos()), fmt.Sprintf("a number parsed at bit size %d is converted to %s, which cannot hold every value of that size: a component near the top of the range wraps (to a negative number), is printed wrapped by the canonical printer, and the canonical string then denotes another version (or none)", bits, strings.Join(bad, ", ")))
+				} else {
+					r.ok(rule, key, p.pos(call.Pos()), fmt.Sprintf("parsed at bit size %d; every integer type the result is converted to holds that range", bits))
+				}
+			}
+		}
+	}
+	r.floor(rule, "strconv.ParseUint/ParseInt calls in the version parsers", n, 4)
 }
